@@ -65,8 +65,8 @@ func runValues(src string, zctx *zed.Context, vals []zed.Value, memMax int) (out
 	case r := <-ch:
 		fuse.MemMaxBytes = defaultMemMax
 		return r.out, r.err
-	case <-time.After(60 * time.Second):
-		return nil, fmt.Errorf("WATCHDOG: %q did not finish in 60s", src)
+	case <-time.After(300 * time.Second):
+		return nil, fmt.Errorf("WATCHDOG: %q did not finish in 300s", src)
 	}
 }
 
